@@ -5,7 +5,8 @@ set -u
 patch=$1; shift
 d=$(mktemp -d /tmp/mut-XXXXXX); rmdir $d
 git -C /repo worktree add -q --detach $d HEAD || exit 2
-trap 'git -C /repo worktree remove --force $d >/dev/null 2>&1; rm -rf $d /tmp/verif-scratch-replay' EXIT
+export TMPDIR=$d.tmp; mkdir -p $TMPDIR   # scratch replay files and work dirs of this run only
+trap 'git -C /repo worktree remove --force $d >/dev/null 2>&1; rm -rf $d $d.tmp' EXIT
 case "$patch" in
   *.sh) (cd $d && bash "$patch") || { echo "mutation script failed"; exit 2; } ;;
   *) git -C $d apply "$patch" || { echo "patch does not apply"; exit 2; } ;;
